@@ -87,6 +87,7 @@ func checkC16(c *fw.Ctx) {
 	checkTransportUse(c)
 	checkPortParse(c, "1 resolve")
 	checkFallbackValidated(c)
+	checkLenientAcceptors(c, "1 resolve", "spec.ParseAndValidateServerName")
 }
 
 // checkFallbackValidated: "invalid server names are refused" also holds for the name a
